@@ -771,10 +771,11 @@ func distinctIdx(a, b *Term) bool {
 		return true
 	}
 	// a pre-existing reference differs from alloc0+k (k >= 1, no wrap: alloc0 < 2^62 and k is small)
-	if a.Pre && bb == "alloc0" && ob.Sign() > 0 && ob.BitLen() < 32 {
+	isAlloc := func(base string) bool { return base == "alloc0" || strings.HasPrefix(base, "wm!") }
+	if a.Pre && isAlloc(bb) && ob.Sign() > 0 && ob.BitLen() < 32 {
 		return true
 	}
-	if b.Pre && ba == "alloc0" && oa.Sign() > 0 && oa.BitLen() < 32 {
+	if b.Pre && isAlloc(ba) && oa.Sign() > 0 && oa.BitLen() < 32 {
 		return true
 	}
 	return false
